@@ -308,6 +308,28 @@ fn handle(req: &Value) -> Value {
             let fresh = run_program(observer, None, 2_000_000);
             json!({"first": first, "observer": obs, "fresh": fresh})
         }
+        "gc_stress" => {
+            // the same program with the default collector schedule and with a collection forced between every two steps
+            let src = req["src"].as_str().unwrap_or("");
+            let normal = run_program(src, Some("/main.ts"), 5_000_000);
+            let mut interp = Interpreter::new();
+            interp.set_gc_threshold(1);
+            let mut r = interp.prepare(src, Some(ModulePath::new("/main.ts")));
+            let mut n = 0u64;
+            let stressed = loop {
+                n += 1;
+                if n > 5_000_000 { break json!({"ok": false, "error": "step budget"}); }
+                match r {
+                    Ok(StepResult::Continue) => { interp.collect(); r = interp.step(); }
+                    Ok(StepResult::Complete(v)) => break json!({"ok": true, "value": js_to_json(v.value())}),
+                    Ok(_) => break json!({"ok": true, "other": true}),
+                    Err(e) => break json!({"ok": false, "error": format!("{}", e)}),
+                }
+            };
+            let a = normal.get("value").cloned().unwrap_or(json!(normal.get("error").cloned()));
+            let b = stressed.get("value").cloned().unwrap_or(json!(stressed.get("error").cloned()));
+            json!({"normal": a, "stressed": b, "differ": a != b})
+        }
         "number_to_string" => {
             let bits = u64::from_str_radix(req["bits"].as_str().unwrap_or("0"), 16).unwrap_or(0);
             json!({"out": tsrun::value::number_to_string(f64::from_bits(bits)).to_string()})
